@@ -15,7 +15,7 @@ Proof.
     [|discriminate].
   destruct (match i_f_today i with
             | Some s => match parse_date toks s with Some c => inr (time_of_civil c) | None => inl EBadDate end
-            | None => inr (or_default (ce_now cfg) (w_clock w))
+            | None => inr (time_of_civil (civ (or_default (ce_now cfg) (w_clock w))))
             end) as [e|now]; [discriminate|].
   destruct (pick_period w now toks (i_g_begin i) (i_l_begin i)) as [e|bt]; [discriminate|].
   destruct (pick_period w now toks (i_g_end i) (i_l_end i)) as [e|et]; [discriminate|].
@@ -56,13 +56,14 @@ Section Run.
     load w i = inr op ->
     In (i_cmd i) [CReg; CBal; CTotals; CUnresolved] ->
     op_db op <> [] ->
+    op_db op <> dev_null ->
     lookup (op_db op) (w_fs w) = Some (FFile data) ->
     lookup (op_db op) (w_read_fault w) = None ->
     open_file w (op_log op) <> None ->
     errors_of (events NM data) = e :: es ->
     run NM w i = {| out_stdout := []; out_status := Failed (EParse (perr_message e)) |}.
   Proof.
-    intros w i op data e es Hl Hc Hne Hfs Hrf Hlog He.
+    intros w i op data e es Hl Hc Hne Hnd Hfs Hrf Hlog He.
     destruct (open_file w (op_log op)) as [olog|] eqn:Eo; [|contradiction].
     unfold run. rewrite Hl.
     destruct Hc as [Hc|[Hc|[Hc|[Hc|[]]]]]; rewrite <- Hc;
@@ -75,13 +76,14 @@ Section Run.
     i_cmd i = CSummary arg ->
     time_from_string w (op_now op) (rc_date (op_rc op)) arg = inr t ->
     op_db op <> [] ->
+    op_db op <> dev_null ->
     lookup (op_db op) (w_fs w) = Some (FFile data) ->
     lookup (op_db op) (w_read_fault w) = None ->
     open_file w (op_log op) <> None ->
     errors_of (events NM data) = e :: es ->
     run NM w i = {| out_stdout := []; out_status := Failed (EParse (perr_message e)) |}.
   Proof.
-    intros w i op arg t data e es Hl Hc Ht Hne Hfs Hrf Hlog He.
+    intros w i op arg t data e es Hl Hc Ht Hne Hnd Hfs Hrf Hlog He.
     destruct (open_file w (op_log op)) as [olog|] eqn:Eo; [|contradiction].
     unfold run. rewrite Hl, Hc, Ht.
     eapply run_db_log_first_error_book; eassumption.
@@ -92,12 +94,13 @@ Section Run.
     load w i = inr op ->
     i_cmd i = CElementTotal x -> x <> [] ->
     op_db op <> [] ->
+    op_db op <> dev_null ->
     lookup (op_db op) (w_fs w) = Some (FFile data) ->
     lookup (op_db op) (w_read_fault w) = None ->
     errors_of (events NM data) = e :: es ->
     run NM w i = {| out_stdout := []; out_status := Failed (EParse (perr_message e)) |}.
   Proof.
-    intros w i op x data e es Hl Hc Hx Hne Hfs Hrf He.
+    intros w i op x data e es Hl Hc Hx Hne Hnd Hfs Hrf He.
     unfold run. rewrite Hl, Hc. eapply run_element_total_first_error_book; eassumption.
   Qed.
 
@@ -106,12 +109,13 @@ Section Run.
     load w i = inr op ->
     i_cmd i = CCsvDbResolved ->
     op_db op <> [] ->
+    op_db op <> dev_null ->
     lookup (op_db op) (w_fs w) = Some (FFile data) ->
     lookup (op_db op) (w_read_fault w) = None ->
     errors_of (events NM data) = e :: es ->
     run NM w i = {| out_stdout := []; out_status := Failed (EParse (perr_message e)) |}.
   Proof.
-    intros w i op data e es Hl Hc Hne Hfs Hrf He.
+    intros w i op data e es Hl Hc Hne Hnd Hfs Hrf He.
     unfold run. rewrite Hl, Hc. eapply run_csv_db_resolved_first_error_book; eassumption.
   Qed.
 
@@ -120,6 +124,7 @@ Section Run.
     load w i = inr op ->
     i_cmd i = CCsvDb ->
     op_db op <> [] ->
+    op_db op <> dev_null ->
     lookup (op_db op) (w_fs w) = Some (FFile data) ->
     lookup (op_db op) (w_read_fault w) = None ->
     w_sink w = None ->
@@ -127,7 +132,7 @@ Section Run.
     run NM w i = {| out_stdout := csv_db_text NM (nodes_of pre);
                     out_status := Failed (EParse (perr_message e)) |}.
   Proof.
-    intros w i op data pre e post Hl Hc Hne Hfs Hrf Hsink Hev Hpre.
+    intros w i op data pre e post Hl Hc Hne Hnd Hfs Hrf Hsink Hev Hpre.
     unfold run. rewrite Hl, Hc. eapply run_csv_db_first_error_book; eassumption.
   Qed.
 
@@ -136,16 +141,19 @@ Section Run.
     load w i = inr op ->
     i_cmd i = CStats ->
     op_log op <> [] ->
+    op_log op <> dev_null ->
     lookup (op_log op) (w_fs w) = Some (FFile ldata) ->
     lookup (op_log op) (w_read_fault w) = None ->
     errors_of (events NM ldata) = [] -> readable ldata ->
+    Forall (fun n => parse_date (rc_date (op_rc op)) (header n) <> None) (nodes_of (events NM ldata)) ->
     op_db op <> [] ->
+    op_db op <> dev_null ->
     lookup (op_db op) (w_fs w) = Some (FFile data) ->
     lookup (op_db op) (w_read_fault w) = None ->
     errors_of (events NM data) = e :: es ->
     run NM w i = {| out_stdout := []; out_status := Failed (EParse (perr_message e)) |}.
   Proof.
-    intros w i op ldata data e es Hl Hc Hlne Hlfs Hlrf Hlc Hlr Hne Hfs Hrf He.
+    intros w i op ldata data e es Hl Hc Hlne Hlnd Hlfs Hlrf Hlc Hlr Hld Hne Hnd Hfs Hrf He.
     unfold run. rewrite Hl, Hc. eapply run_stats_first_error_book; eassumption.
   Qed.
 
@@ -161,6 +169,7 @@ Section Run.
     open_file w (op_db op) = Some odb ->
     resolved_db NM w op odb = inr d ->
     op_log op <> [] ->
+    op_log op <> dev_null ->
     lookup (op_log op) (w_fs w) = Some (FFile data) ->
     lookup (op_log op) (w_read_fault w) = None ->
     w_sink w = None ->
@@ -169,7 +178,7 @@ Section Run.
     Forall (fun n => parse_date (rc_date (op_rc op)) (header n) <> None) (nodes_of pre) ->
     out_status (run NM w i) = Failed (EParse (perr_message e)).
   Proof.
-    intros w i op odb d data pre e post Hl Hc Hreg Hdb Hres Hne Hfs Hrf Hsink Hev Hpre Hd.
+    intros w i op odb d data pre e post Hl Hc Hreg Hdb Hres Hne Hnd Hfs Hrf Hsink Hev Hpre Hd.
     pose proof (load_tokens w i op Hl) as Htok.
     unfold run. rewrite Hl.
     destruct Hc as [Hc|[Hc|[Hc|[Hc|[]]]]]; rewrite <- Hc.
@@ -196,6 +205,7 @@ Section Run.
     open_file w (op_db op) = Some odb ->
     resolved_db NM w op odb = inr d ->
     op_log op <> [] ->
+    op_log op <> dev_null ->
     lookup (op_log op) (w_fs w) = Some (FFile data) ->
     lookup (op_log op) (w_read_fault w) = None ->
     w_sink w = None ->
@@ -204,7 +214,7 @@ Section Run.
     Forall (fun n => parse_date (rc_date (op_rc op)) (header n) <> None) (nodes_of pre) ->
     out_status (run NM w i) = Failed (EParse (perr_message e)).
   Proof.
-    intros w i op arg t odb d data pre e post Hl Hc Ht Hdb Hres Hne Hfs Hrf Hsink Hev Hpre Hd.
+    intros w i op arg t odb d data pre e post Hl Hc Ht Hdb Hres Hne Hnd Hfs Hrf Hsink Hev Hpre Hd.
     pose proof (load_tokens w i op Hl) as Htok.
     unfold run. rewrite Hl, Hc, Ht.
     eapply run_db_log_first_error_log_status; try eassumption.
@@ -217,6 +227,7 @@ Section Run.
     load w i = inr op ->
     In (i_cmd i) [CQuantity; CCsvLog; CPrint] ->
     op_log op <> [] ->
+    op_log op <> dev_null ->
     lookup (op_log op) (w_fs w) = Some (FFile data) ->
     lookup (op_log op) (w_read_fault w) = None ->
     w_sink w = None ->
@@ -225,7 +236,7 @@ Section Run.
     Forall (fun n => parse_date (rc_date (op_rc op)) (header n) <> None) (nodes_of pre) ->
     out_status (run NM w i) = Failed (EParse (perr_message e)).
   Proof.
-    intros w i op data pre e post Hl Hc Hne Hfs Hrf Hsink Hev Hpre Hd.
+    intros w i op data pre e post Hl Hc Hne Hnd Hfs Hrf Hsink Hev Hpre Hd.
     pose proof (load_tokens w i op Hl) as Htok.
     unfold run. rewrite Hl.
     destruct Hc as [Hc|[Hc|[Hc|[]]]]; rewrite <- Hc.
@@ -234,18 +245,42 @@ Section Run.
     - erewrite run_log_first_error_log; try eassumption; [reflexivity|apply total_print].
   Qed.
 
-  (** stats: no date is required of the headings, and the book is not reached *)
-  Theorem run_log_error_stats : forall (w : world) (i : invocation) (op : options) data e es,
+  (** stats: the headings before the malformed line must be dates here too (fix F27: before, no date was
+      required of the headings); the book is not reached *)
+  Theorem run_log_error_stats : forall (w : world) (i : invocation) (op : options) data pre e post,
     load w i = inr op ->
     i_cmd i = CStats ->
     op_log op <> [] ->
+    op_log op <> dev_null ->
     lookup (op_log op) (w_fs w) = Some (FFile data) ->
     lookup (op_log op) (w_read_fault w) = None ->
-    errors_of (events NM data) = e :: es ->
+    events NM data = pre ++ EErr e :: post ->
+    errors_of pre = [] ->
+    Forall (fun n => parse_date (rc_date (op_rc op)) (header n) <> None) (nodes_of pre) ->
     run NM w i = {| out_stdout := []; out_status := Failed (EParse (perr_message e)) |}.
   Proof.
-    intros w i op data e es Hl Hc Hne Hfs Hrf He.
+    intros w i op data pre e post Hl Hc Hne Hnd Hfs Hrf Hev Hpre Hd.
     unfold run. rewrite Hl, Hc. eapply run_stats_first_error_log; eassumption.
+  Qed.
+
+  (** stats: and the first heading that is not a date (before any malformed line) ends the run with the date
+      error, nothing printed (fix F27: before, such a heading was counted and shown as the zero time) *)
+  Theorem run_bad_date_stats : forall (w : world) (i : invocation) (op : options) data pre n post,
+    load w i = inr op ->
+    i_cmd i = CStats ->
+    op_log op <> [] ->
+    op_log op <> dev_null ->
+    lookup (op_log op) (w_fs w) = Some (FFile data) ->
+    lookup (op_log op) (w_read_fault w) = None ->
+    events NM data = pre ++ ENode n :: post ->
+    errors_of pre = [] ->
+    Forall (fun m => parse_date (rc_date (op_rc op)) (header m) <> None) (nodes_of pre) ->
+    parse_date (rc_date (op_rc op)) (header n) = None ->
+    post <> [] \/ readable data ->
+    run NM w i = {| out_stdout := []; out_status := Failed EBadDate |}.
+  Proof.
+    intros w i op data pre n post Hl Hc Hne Hnd Hfs Hrf Hev Hpre Hd Hbad Hpost.
+    unfold run. rewrite Hl, Hc. eapply run_stats_bad_date_first; eassumption.
   Qed.
 
   (** lint at program level *)
@@ -253,6 +288,7 @@ Section Run.
     load w i = inr op ->
     i_cmd i = CLint file ->
     file <> [] ->
+    file <> dev_null ->
     lookup file (w_fs w) = Some (FFile data) ->
     lookup file (w_read_fault w) = None ->
     w_sink w = None ->
@@ -263,7 +299,7 @@ Section Run.
                            then b "No errors found" ++ [c_lf] else []);
          out_status := Ok |}.
   Proof.
-    intros w i op file data Hl Hc Hne Hfs Hrf Hsink Hr.
+    intros w i op file data Hl Hc Hne Hnd Hfs Hrf Hsink Hr.
     unfold run. rewrite Hl, Hc. apply lint_reports_all; assumption.
   Qed.
 End Run.
